@@ -80,12 +80,14 @@ def shard(shard_i, nshards, payload):
                 res.sample({"valid_unit": text[:600]})
             # (b) every single fault
             faults = list(vgen.plant_all(decls))
+            detected_faults = []
             for code, site, mutant, spellings in faults:
                 mtext = spell_unit(mutant)
                 mcodes, mobs = analyze(probe, mtext)
                 res.evaluations += 1
                 res.count("planted:" + code)
                 res.seen("sites", code + "@" + site)
+                res.seen("site_classes", code + "@" + site_class(site))
                 mcase = {"text": mtext, "planted": code, "site": site, "what": "single fault"}
                 if mcodes is None:
                     res.inconclusive.append({"why": "watchdog", "case": mcase})
@@ -107,7 +109,10 @@ def shard(shard_i, nshards, payload):
                 else:
                     res.count("detected:" + code)
                     res.distinct.add(core.key_of(code, site))
-            # (c) double faults: pairs of distinct (rule, site) in distinct declarations
+                    detected_faults.append((code, site, mutant, spellings))
+            # (c) double faults: pairs of distinct (rule, site) in distinct declarations, each of which is detected
+            # when planted alone (a pair of faults that are both missed alone is the single-fault violation again)
+            faults = detected_faults
             if len(faults) >= 2:
                 for _ in range(payload["doubles_per_unit"]):
                     a, b = rng.sample(range(len(faults)), 2)
